@@ -332,6 +332,7 @@ class Round:
         self.ctx, self.pending = [], {}
         self.cur_pop = self.cur_slide = None
         self.last_err_head = None
+        self.err_head = None  # head whose statement raised OUTSIDE slide (head-changed callback, _start_flow, _create_event_reference)
         name = getattr(event, "name", None) or (event.get("type") if isinstance(event, dict) else None)
         args = getattr(event, "arguments", None) or (event if isinstance(event, dict) else {})
         T = [["ev", self.kind(name, args)]]
@@ -412,7 +413,10 @@ class Round:
         elif self.cur_slide is not None and self.cur_slide["open"]:
             self.cur_slide["pushes"].append(["ev", k])
         elif event.name == "ColangError":
-            uid = self.cur_slide["uid"] if self.cur_slide is not None else self.last_err_head
+            if self.err_head is not None:
+                uid, self.err_head = self.err_head, None
+            else:
+                uid = self.cur_slide["uid"] if self.cur_slide is not None else self.last_err_head
             self.pending.setdefault(uid, []).append(["ev", k])
         else:
             self.orphans.append(f"push of {event.name} outside any recorded step")
